@@ -24,7 +24,7 @@ from . import exprsem, relmodel
 from .relmodel import Tab
 from .symx import SymInt, Skip, zint
 
-UNARY = ("calc", "proj", "sel", "dedup", "sort", "slice", "mat", "xfer", "tag", "proc", "cust", "xferp")
+UNARY = ("calc", "proj", "sel", "dedup", "sort", "slice", "mat", "xfer", "tag", "proc", "cust", "xferp", "twice")
 
 
 @dataclasses.dataclass(frozen=True)
@@ -197,7 +197,7 @@ def expression_history(env, *nodes):
                 pass
 
 
-_OPS = ("leaf", "calc", "proj", "sel", "dedup", "sort", "slice", "chain", "join", "mat", "xfer", "tag", "proc", "cust", "xferp")
+_OPS = ("leaf", "calc", "proj", "sel", "dedup", "sort", "slice", "chain", "join", "mat", "xfer", "tag", "proc", "cust", "xferp", "twice")
 _USER_MARKER = []
 _USER_FILTER = []
 _HENGINE = []
@@ -261,6 +261,12 @@ def user_marker_class():
 HISTORY = not os.environ.get("VERIF_NO_HISTORY")
 DECLARED_COLS = {}  # leaf name -> the relation's own columns, for leaves whose table / payload offers more (sqlprogs' Wx)
 CURRENT_DECOYS = {}  # id(decoy LeafRelation) -> object, of the Env that built last (read by pytree)
+
+
+def expand_twice(node):
+    """("twice", inner) - one operation *object* applied twice in a row - means the same as its template applied twice."""
+    inner = node[1]
+    return (inner[0], inner) + tuple(inner[2:])
 
 
 def leaf_names(node, acc=None):
@@ -398,6 +404,11 @@ def _build(node, env, memo):
         r = env.engines[node[2]].transfer(t, payload=pl)
     elif op == "tag":
         r = user_marker_class()(target=build(node[1], env, memo))
+    elif op == "twice":
+        # the operation-level entry point with one operation instance used for both applications (operations are values: callers
+        # keep and re-use them)
+        the_op = make_op(node[1], env)
+        r = the_op.apply(the_op.apply(build(node[1][1], env, memo)))
     elif op == "cust":
         r = user_filter_class()().apply(build(node[1], env, memo))
     elif op == "proc":
@@ -431,6 +442,8 @@ def _sem_seq(node, env, prefer):
     op = node[0]
     bind = env.bind
     sqlm = getattr(env, "sql_mode", False)
+    if op == "twice":
+        return _sem_seq(expand_twice(node), env, prefer)
     if op == "leaf":
         t = env.tables[node[1]]
         if node[1] in DECLARED_COLS and set(t.cols) > set(DECLARED_COLS[node[1]]):
@@ -539,7 +552,9 @@ def sem_tree(rel, env, prefer="r"):
     )
 
     if isinstance(rel, LeafRelation):
-        t = env.tables[rel.name]
+        t = getattr(env, "tables_by_id", {}).get(id(rel))  # two leaves may compare equal (same name) and still hold other rows
+        if t is None:
+            t = env.tables[rel.name]
         own = {c.qualified_name for c in rel.columns}
         if set(t.cols) > own:  # the table behind the leaf offers more columns than the relation has
             t = relmodel.project(t, sorted(own))
@@ -641,6 +656,8 @@ def apply_lib_op(t, o, strict=False, count_mode=False):
 def pyeval(node, leafrows, bind, tags, prefer="l"):
     """Evaluate a program over concrete leaf rows (dict colname -> int) with ordinary Python."""
     op = node[0]
+    if op == "twice":
+        return pyeval(expand_twice(node), leafrows, bind, tags, prefer)
     if op == "leaf":
         if node[1] in DECLARED_COLS and all(set(r) > set(DECLARED_COLS[node[1]]) for r in leafrows[node[1]]):
             return [{c: r[c] for c in DECLARED_COLS[node[1]]} for r in leafrows[node[1]]]
@@ -693,6 +710,8 @@ def pyeval(node, leafrows, bind, tags, prefer="l"):
 
 def fmt(node):
     op = node[0]
+    if op == "twice":
+        return fmt(expand_twice(node)) + " (one operation object applied twice)"
     if op == "leaf":
         return node[1]
     if op == "calc":
@@ -738,6 +757,8 @@ def _fo(node, i):
 def ops_of(node):
     """Operation-type sequence (post-order) of a program - used for site strings."""
     op = node[0]
+    if op == "twice":
+        return ops_of(node[1]) + [node[1][0] + "(same object)"]
     if op == "leaf":
         return []
     if op in ("chain", "join"):
@@ -787,6 +808,8 @@ def cols_of(node, leafcols):
     """Columns of a program if it is well-typed (every required column present, new tags fresh,
     chain operands with equal columns); raises IllTyped otherwise."""
     op = node[0]
+    if op == "twice":
+        return cols_of(expand_twice(node), leafcols)
     if op == "leaf":
         return frozenset(leafcols[node[1]])
     if op in ("mat", "xfer", "tag", "proc", "cust", "xferp"):
@@ -902,7 +925,8 @@ def pytree(rel, leafrows, prefer="r"):
         if id(rel) in CURRENT_DECOYS:
             return []
         own = {c.qualified_name for c in rel.columns}
-        return [{k: v for k, v in r.items() if k in own} if set(r) > own else dict(r) for r in leafrows[rel.name]]
+        mine = leafrows.get(("id", id(rel)), None)
+        return [{k: v for k, v in r.items() if k in own} if set(r) > own else dict(r) for r in (leafrows[rel.name] if mine is None else mine)]
     if isinstance(rel, MarkerRelation):
         return pytree(rel.target, leafrows, prefer)
     if isinstance(rel, BinaryOperationRelation):
